@@ -499,7 +499,10 @@ fn snd_full(mask: u8, vmax: u64) {
     let ops = unsafe { rec::REC };
     kani::cover!(e.present && e.n_kv < e.n_stale, "truncated between key-values");
     kani::cover!(e.present && e.n_stale == 0 && e.max > 0, "SetMaxVersion for an empty tail");
-    if !e.present { assert!(n == 0, "C05/C07: ops emitted although the sender is not ahead / nothing fits"); }
+    if !e.present {
+        if c.max > dmax { assert!(n == 0, "C03/C07: ops emitted although the member header was refused (they would be attributed to another member)"); }
+        else { assert!(n == 0, "C05/C07: ops emitted although the sender is not ahead"); }
+    }
     else {
         assert!(n >= 1 && ops[0].kind == rec::REC_NODE && ops[0].id0 == b'x' && ops[0].gc == e.gc && ops[0].from == e.from, "C07/C14: wrong member header");
         if e.n_stale == 0 {
